@@ -245,6 +245,9 @@ Fixpoint strip_prefix (p s : text) : option text :=
   | a :: p', b :: s' => if Ascii.eqb a b then strip_prefix p' s' else None
   | _ :: _, [] => None
   end.
+(* p occurs somewhere in s *)
+Fixpoint has_sub (p s : text) : bool :=
+  match strip_prefix p s with Some _ => true | None => match s with [] => false | _ :: t => has_sub p t end end.
 Definition nonempty (o : option text) : bool := match o with Some (_ :: _) => true | _ => false end.
 Definition lit (s : string) : text := list_ascii_of_string s.
 Definition url_head (w : text) : bool :=
